@@ -646,6 +646,36 @@ func makeIntrinsics() map[string]intrinsic {
 		return Ite(FLt(x, FConst64(0)), FNeg(x), x)
 	}
 
+	// ---------------------------------------------------------- sort.Slice
+	m["sort.Slice"] = func(in *Interp, _ *frame, _ *ssa.CallCommon, a []Value) Value {
+		iv := a[0].(IfaceV)
+		sl, ok := iv.v.(SliceV)
+		if !ok {
+			in.goPanicf("sort.Slice: not a slice")
+		}
+		less := a[1].(*FuncV)
+		if sl.arr == nil {
+			return nil
+		}
+		n := int(in.ex.Choose(sl.ln))
+		off := int(in.ex.Choose(sl.off))
+		// insertion sort driven by the caller's less (any correct sort gives
+		// the same result when less is a strict weak order without ties)
+		for i := 1; i < n; i++ {
+			for j := i; j > 0; j-- {
+				r := term(in.callFn(less, []Value{I64(int64(j)), I64(int64(j - 1))}))
+				if !in.ex.Branch(r) {
+					break
+				}
+				x, y := sl.arr.kids[off+j], sl.arr.kids[off+j-1]
+				vx, vy := in.loadCell(x), in.loadCell(y)
+				in.storeCell(x, vy)
+				in.storeCell(y, vx)
+			}
+		}
+		return nil
+	}
+
 	// ---------------------------------------------------------- encoding/binary
 	m["encoding/binary.Write"] = func(in *Interp, _ *frame, _ *ssa.CallCommon, a []Value) Value {
 		return in.binaryWrite(a[0].(IfaceV), a[1].(IfaceV), a[2].(IfaceV))
